@@ -192,6 +192,10 @@ class Fn:
                         self.params.append((nm, 'Z')); self.env[nm] = ('u', 64)
                     elif mode == 'index_pred':   # C12: predicate applied to an ELEMENT of the item array: modelled as (Z -> bool) on the element index
                         self.params.append((nm, '(Z -> bool)')); self.env[nm] = ('fnpred',)
+                    elif mode == 'fails':   # C04: a user functor (item creator / replacer) that may THROW: bool parameter <name>_fails; the
+                        # function then returns Ok (completed : bool, fields): completed = false <=> the functor threw at its call site and
+                        # `fields` are the member values AT THAT MOMENT (what the caller sees when the exception propagates)
+                        self.params.append((nm + '_fails', 'bool')); self.env[nm + '_fails'] = ('bool',)
                     continue
                 nm = coq_ident(nm)
                 ct = ctype(p)
@@ -217,8 +221,45 @@ class Fn:
         return ctype_of_str(r) if r else None
 
     # ---------------- expressions ----------------
+    def obj_value(self, n):
+        """C14 ("object_fields": {"this": fld, "<param>": fld2}): the scalar standing for a class-typed expression -- *this or a
+        by-reference parameter viewed as its (base-class) manager sub-object, through casts / std::move / copy construction;
+        a class-typed local introduced by such an expression is a plain local.  None if n is not of that shape."""
+        of = self.ctx.cfg.get('object_fields')
+        if not of:
+            return None
+        n = skip_wrappers(n)
+        while True:
+            k = n.get('kind')
+            if k in ('ImplicitCastExpr', 'CXXStaticCastExpr', 'ParenExpr', 'MaterializeTemporaryExpr', 'ExprWithCleanups',
+                     'CXXBindTemporaryExpr', 'CXXFunctionalCastExpr') and n.get('inner'):
+                n = skip_wrappers(n['inner'][-1]); continue
+            if k == 'CXXConstructExpr' and len(n.get('inner', [])) == 1:
+                n = skip_wrappers(n['inner'][0]); continue
+            if k == 'CallExpr' and len(n.get('inner', [])) == 2:
+                try:
+                    nm, _ = self.callee_name(n)
+                except TranslationError:
+                    return None
+                if nm in ('move', 'forward'):
+                    n = skip_wrappers(n['inner'][1]); continue
+                return None
+            break
+        if n.get('kind') == 'UnaryOperator' and n.get('opcode') == '*' and skip_wrappers(n['inner'][0]).get('kind') == 'CXXThisExpr':
+            return of.get('this')
+        if n.get('kind') == 'DeclRefExpr':
+            nm = n['referencedDecl']['name']
+            if nm in of:
+                return of[nm]
+            if nm in getattr(self, 'obj_locals', set()):
+                return nm
+        return None
+
     def e(self, n):
         k = n['kind']
+        ov_ = self.obj_value(n) if self.ctx.cfg.get('object_fields') else None
+        if ov_ is not None:
+            return ov_
         if k == 'SubstNonTypeTemplateParmExpr':
             return self.e(n['inner'][-1])
         if k in ('ParenExpr', 'ExprWithCleanups', 'MaterializeTemporaryExpr', 'ConstantExpr',
@@ -243,6 +284,12 @@ class Fn:
             return self.ref(n)
         if k in ('ImplicitCastExpr', 'CXXStaticCastExpr', 'CStyleCastExpr', 'CXXFunctionalCastExpr'):
             return self.cast(n)
+        if k == 'ArraySubscriptExpr' and self.ctx.cfg.get('element_address'):   # C16: `mSegments[s][j]` (an Item&) is modelled by the
+            b0 = skip_wrappers(n['inner'][0])                                      # element's ADDRESS  (mSegments s) + j  (stride = one item)
+            while b0.get('kind') == 'ImplicitCastExpr':
+                b0 = skip_wrappers(b0['inner'][0])
+            if b0.get('kind') == 'CXXOperatorCallExpr' and self.memobj(b0) is not None and self.memobj(b0)[1] == 'operator[]':
+                return f"({self.e(b0)} + {self.e(n['inner'][1])})"
         if k == 'ArraySubscriptExpr':
             base = self.lv_base(n['inner'][0]); idx = self.e(n['inner'][1])
             if base in self.ctx.static_tables:
@@ -425,9 +472,36 @@ class Fn:
             raise TranslationError('call to an overload of %s other than the translated one (list it with "index"/"as")' % nm)
         return fi
 
+    def member_object_base(self, c):
+        """C12 ("member_objects"): for a call `mObj.Method(...)` return the member object's name, for `local.Method()` on an
+        opaque class-typed local return ('local', name); else None"""
+        if c is None or c.get('kind') != 'MemberExpr' or not c.get('inner'):
+            return None
+        b = skip_wrappers(c['inner'][0])
+        while b.get('kind') == 'ImplicitCastExpr':
+            b = skip_wrappers(b['inner'][0])
+        if b.get('kind') == 'MemberExpr' and b.get('name') in self.ctx.cfg.get('member_objects', {}):
+            return b['name']
+        if b.get('kind') == 'DeclRefExpr' and b['referencedDecl'].get('name') in self.opaque \
+                and self.env.get(b['referencedDecl']['name']) == ('u', 64) and self.ctx.cfg.get('opaque_objects'):
+            return ('local', b['referencedDecl']['name'])
+        return None
+
     def call_expr(self, n):
         nm, c = self.callee_name(n)
         args = n['inner'][1:]
+        mob_ = self.member_object_base(c)
+        if isinstance(mob_, str):       # C12: getter of a member object modelled as scalar fields, e.g. mPtrState.GetPointer()
+            fld_ = self.ctx.cfg['member_objects'][mob_].get(nm)
+            if isinstance(fld_, str):
+                if fld_ not in self.env:
+                    raise TranslationError(f'member object field {fld_} used in static function')
+                return fld_
+            raise TranslationError('call %s.%s is not a configured getter' % (mob_, nm))
+        if isinstance(mob_, tuple):     # C12: any accessor of an opaque class-typed local (memory.GetPointer(), memory.Extract()) is the local's symbol
+            if nm in self.ctx.cfg.get('opaque_objects', {}).get(mob_[1], []):
+                return mob_[1]
+            raise TranslationError('call %s.%s on an opaque object is not listed in "opaque_objects"' % (mob_[1], nm))
         if nm in self.ctx.accessors:
             fld, idx = self.accessor_target(nm, args)
             return f'({fld} {idx})'
@@ -484,6 +558,12 @@ class Fn:
             if p.get('name') is None or p.get('name') in fi.skipp or p.get('name') in fi.functors:
                 continue
             out.append(self.e(a))
+        # C12: opaque locals / address parameters of the callee are parameters of the caller too (named <callee>_<name>)
+        for (pn, ty) in getattr(fi, 'extra_params', []):
+            cn = fi.out + '_' + pn
+            if (cn, ty) not in self.extra_params:
+                self.extra_params.append((cn, ty)); self.env[cn] = ('u', 64)
+            out.append(cn)
         return out
 
     def field_args_for(self, caller):
@@ -742,14 +822,14 @@ class Fn:
                 return True
             # a loop containing return still "jumps" out of the enclosing code
             return self.has_return(n)
-        if is_assert_stmt(n) and k not in ('CompoundStmt', 'IfStmt'):
+        if is_assert_stmt(n) and k not in ('CompoundStmt', 'IfStmt', 'SwitchStmt', 'CaseStmt', 'DefaultStmt'):   # C12: a switch CONTAINING an assert is not an assert
             return True
         return any(self.has_jump(c) for c in n.get('inner', []) if isinstance(c, dict))
 
     def has_return(self, n):
         if n.get('kind') in ('ReturnStmt', 'CXXThrowExpr'):
             return True
-        if is_assert_stmt(n) and n.get('kind') not in ('CompoundStmt', 'IfStmt', 'WhileStmt', 'ForStmt'):
+        if is_assert_stmt(n) and n.get('kind') not in ('CompoundStmt', 'IfStmt', 'WhileStmt', 'ForStmt', 'SwitchStmt', 'CaseStmt', 'DefaultStmt'):
             return True
         return any(self.has_return(c) for c in n.get('inner', []) if isinstance(c, dict))
 
@@ -779,10 +859,26 @@ class Fn:
                     acc.add(en_[0])
             except TranslationError:
                 pass
+        if k in ('CXXMemberCallExpr', 'CallExpr') and self.ctx.cfg.get('record_calls'):   # C07: a recorded call writes its pseudo fields
+            try:
+                rc_ = self.ctx.cfg['record_calls'].get(self.callee_name(n)[0])
+                if rc_ is not None:
+                    acc.update(f_ for f_, _ in rc_)
+            except TranslationError:
+                pass
         if k == 'UnaryOperator' and n.get('opcode') in ('++', '--'):
             tgt_ = skip_wrappers(n['inner'][0])
             if not (self.ctx.cfg.get('assert_calls') and tgt_['kind'] in ('CXXMemberCallExpr', 'CallExpr')):   # C14: ++obj.Accessor() assigns no field
                 acc.add(self.lhs_name(n['inner'][0]))
+        if self.ctx.cfg.get('swap_calls') and k in ('CallExpr', 'CXXMemberCallExpr'):   # C14: a swap writes both lvalues
+            try:
+                nm_, c_ = self.callee_name(n)
+                if nm_ == 'swap' and k == 'CallExpr' and len(n['inner']) == 3:
+                    acc.update([self.swap_lvalue(n['inner'][1]), self.swap_lvalue(n['inner'][2])])
+                elif nm_ in self.ctx.cfg.get('member_swaps', []) and k == 'CXXMemberCallExpr' and len(n['inner']) == 2 and c_.get('inner'):
+                    acc.update([self.swap_lvalue(c_['inner'][0]), self.swap_lvalue(n['inner'][1])])
+            except TranslationError:
+                pass
         if k in ('CXXMemberCallExpr', 'CXXOperatorCallExpr') and self.memobj(n) is not None:   # C16
             mo, meth, _a = self.memobj(n)
             if meth == 'AddBackNogrow': acc.update([mo['arr'], mo['n']])
@@ -864,6 +960,30 @@ class Fn:
         self.note_write(nm)
         return f'let {nm} := {val} in\n{k()}'
 
+    def swap_lvalue(self, n):
+        """C14 (swap_calls): name of the scalar lvalue an argument of swap denotes"""
+        n = skip_wrappers(n)
+        while n['kind'] in ('ImplicitCastExpr', 'ParenExpr') and n.get('inner'):
+            n = skip_wrappers(n['inner'][0])
+        if n['kind'] in ('CXXMemberCallExpr', 'CallExpr'):
+            nm, c = self.callee_name(n)
+            fld = self.ctx.cfg.get('lvalue_calls', {}).get(nm)
+            if fld is None:
+                raise TranslationError('swap argument is a call to %s (not in "lvalue_calls")' % nm)
+            obj = skip_wrappers(c['inner'][0]) if c.get('inner') else None
+            while obj is not None and obj['kind'] == 'ImplicitCastExpr' and obj.get('inner'):
+                obj = skip_wrappers(obj['inner'][0])
+            if obj is None or obj['kind'] == 'CXXThisExpr':
+                name = fld
+            elif obj['kind'] == 'DeclRefExpr':
+                name = obj['referencedDecl']['name'] + '_' + fld
+            else:
+                raise TranslationError('swap argument: accessor on ' + obj['kind'])
+            if name not in self.env:
+                raise TranslationError('swap argument %s is not a configured field' % name)
+            return name
+        return self.lhs_name(n)
+
     def note_write(self, nm):
         if nm in self.ctx.fields:
             self.writes_fields.add(nm)
@@ -901,7 +1021,7 @@ class Fn:
             return self.decl(s, rest)
         if kind == 'ReturnStmt':
             if self.name in self.ctx.cfg.get('ignore_return', []):   # C12: returned iterator/pointer is not modelled
-                return jc['ret']('tt')
+                return jc['ret']('true' if getattr(self, 'fails_mode', False) else 'tt')   # C04: completed flag
             if s.get('inner'):
                 return self.ret_stmt(s['inner'][0], jc)
             return jc['ret']('tt')
@@ -923,7 +1043,7 @@ class Fn:
             #   exception branch (throw -> Exn) is kept next to the assertion obligation (-> Stuck) instead of being dropped
             b = s['inner'][0]
             return self.stmts((b.get('inner', []) if b['kind'] == 'CompoundStmt' else [b]) + lst[1:], k, jc)
-        if is_assert_stmt(s) and kind not in ('IfStmt', 'WhileStmt', 'ForStmt'):
+        if is_assert_stmt(s) and kind not in ('IfStmt', 'WhileStmt', 'ForStmt', 'SwitchStmt'):   # C12: a switch whose default contains MOMO_ASSERT was translated as that assert alone
             c = find_assert_cond(s)
             if c is None:
                 raise TranslationError('assert shape not recognised')
@@ -956,6 +1076,13 @@ class Fn:
                 return go(i + 1)
             if nm in self.env and nm not in self.opaque:
                 raise TranslationError(f'shadowing/redeclaration of {nm} in {self.name}')
+            if self.ctx.cfg.get('object_fields'):   # C14: `MemManager memManager(std::move(static_cast<MemManager&>(*this)));`
+                init_ = [x for x in v.get('inner', []) if isinstance(x, dict) and x.get('kind') not in ('TypedefType',)]
+                ov_ = self.obj_value(init_[0]) if len(init_) == 1 else None
+                if ov_ is not None:
+                    if not hasattr(self, 'obj_locals'): self.obj_locals = set()
+                    self.obj_locals.add(nm); self.env[nm] = ('u', 64)
+                    return f'let {nm} := {ov_} in\n{go(i + 1)}'
             if v.get('storageClass') == 'static' and not (
                     # C17: `static const size_t halfSize = <constant expr>;` – a const integer static local with a
                     # scalar initialiser is an ordinary immutable let-binding (falls through to the code below)
@@ -968,6 +1095,7 @@ class Fn:
                 ct = ('pair',)
             if nm in self.opaque:
                 if ct[0] == 'ptr': ct = ('u', 64)
+                if ct[0] == 'other' and nm in self.ctx.cfg.get('opaque_objects', {}): ct = ('u', 64)   # C12: opaque class-typed local = a symbol
                 self.env[nm] = ct
                 if (nm, coq_ty(ct)) not in self.extra_params:
                     self.extra_params.append((nm, coq_ty(ct)))
@@ -1101,11 +1229,50 @@ class Fn:
             try:
                 nm, c = self.callee_name(s0)
             except TranslationError:
-                nm = None
+                nm = None; c = None
+                if self.ctx.cfg.get('skip_unresolved_calls'):   # C07: a call statement into another object (mHashMultiMap.Add(...)) that is not modelled
+                    return rest()
             # C14: "assert_calls": {callee name: Gallina bool}: a call into another object (e.g. mCrew.IncVersion(),
             # MemManagerProxy::Deallocate(GetMemManager(), ...)) whose callee begins with MOMO_ASSERT(!<bool>): the statement
             # becomes that obligation (Stuck when the bool holds); the callee's contract is checked separately by the property.
             rid0_ = (c.get('referencedMemberDecl') or (c.get('referencedDecl') or {}).get('id')) if (nm is not None and c) else None
+            mob_ = self.member_object_base(c) if (nm is not None and c) else None
+            if isinstance(mob_, str):   # C12: setter of a member object modelled as scalar fields: mPtrState.Set(ptr, state)
+                flds_ = self.ctx.cfg['member_objects'][mob_].get(nm)
+                if isinstance(flds_, list) and len(flds_) == len(s0['inner']) - 1:
+                    vals_ = [self.e(a) for a in s0['inner'][1:]]
+                    for f_ in flds_:
+                        self.note_write(f_)
+                    tmp_ = [f'{f_}__new' for f_ in flds_]
+                    txt_ = ''.join(f'let {t_} := {v_} in\n' for t_, v_ in zip(tmp_, vals_))
+                    txt_ += ''.join(f'let {f_} := {t_} in\n' for f_, t_ in zip(flds_, tmp_))
+                    return txt_ + rest()
+                raise TranslationError('call %s.%s is not a configured setter' % (mob_, nm))
+            # C14: "swap_calls": true -- two-object functions.  `std::swap(a, b)` and `x.Swap(y)` (callee listed in
+            # "member_swaps") exchange two scalar lvalues; an lvalue is a field of *this, a field of a by-reference parameter
+            # object (`other.field`, configured as field "other_field"), or `obj.Accessor()` with Accessor in "lvalue_calls"
+            # (name -> field; on a parameter object: "<param>_<field>").
+            if self.ctx.cfg.get('swap_calls') and not (rid0_ is not None and rid0_ in self.ctx.fninfo_id):
+                pair_ = None
+                if nm == 'swap' and k == 'CallExpr' and len(s0['inner']) == 3:
+                    pair_ = (s0['inner'][1], s0['inner'][2])
+                elif nm in self.ctx.cfg.get('member_swaps', []) and k == 'CXXMemberCallExpr' and len(s0['inner']) == 2 and c.get('inner'):
+                    pair_ = (c['inner'][0], s0['inner'][1])
+                if pair_ is not None:
+                    a_ = self.swap_lvalue(pair_[0]); b_ = self.swap_lvalue(pair_[1])
+                    for f_ in (a_, b_):
+                        if self.ctx.fields.get(f_, 'scalar') not in ('scalar', 'bool'):
+                            raise TranslationError('swap of non-scalar ' + f_)
+                        self.note_write(f_)
+                    return f'let swap_tmp_ := {a_} in\nlet {a_} := {b_} in\nlet {b_} := swap_tmp_ in\n{rest()}'
+            if nm in self.ctx.cfg.get('assign_calls', []) and k == 'CallExpr' and len(s0['inner']) == 3:
+                # C14: "assign_calls": MemManagerProxy::Assign(src, dst) -- dst takes src's identity (PropagationModel: whichever
+                # overload / fallback is chosen); both are objects in the sense of "object_fields"
+                src_ = self.obj_value(s0['inner'][1]); dst_ = self.obj_value(s0['inner'][2])
+                if src_ is None or dst_ is None:
+                    raise TranslationError('assign call on something that is not a configured object')
+                self.note_write(dst_)
+                return f'let {dst_} := {src_} in\n{rest()}'
             if nm in self.ctx.cfg.get('assert_calls', {}) and not (rid0_ is not None and rid0_ in self.ctx.fninfo_id):
                 self.nonsimple = True
                 return f"if {self.ctx.cfg['assert_calls'][nm]} then Stuck else (\n{rest()})"
@@ -1115,6 +1282,16 @@ class Fn:
                 fname = self.functor_of(s0)
                 if fname and self.functors.get(fname) == 'skip':
                     return rest()
+                if fname and isinstance(self.functors.get(fname), dict) and 'observe' in self.functors[fname]:
+                    # C10: {"observe": ghost, "value": field}: a user functor that may throw runs HERE: the ghost field records the
+                    # value of `field` at the moment of the call (what the object looks like if the functor throws)
+                    g_ = self.functors[fname]['observe']; v_ = self.functors[fname]['value']
+                    if g_ not in self.ctx.fields or v_ not in self.ctx.fields:
+                        raise TranslationError('observe: %s / %s must be configured fields' % (g_, v_))
+                    self.note_write(g_)
+                    return f'let {g_} := {v_} in\n{rest()}'
+                if fname and self.functors.get(fname) == 'fails':   # C04: the functor throws here, or the function goes on
+                    return f"if {fname}_fails then RETURN[false] else (\n{rest()})"
                 if nm == 'operator=' and self.ctx.cfg.get('opaque_types') and len(s0['inner']) == 3:   # C06: assignment between opaque (class-type) values
                     return self.assign_to(s0['inner'][1], self.e(s0['inner'][2]), rest)
                 raise TranslationError('operator call statement')
@@ -1132,6 +1309,18 @@ class Fn:
                 rid_ = (c.get('referencedMemberDecl') or (c.get('referencedDecl') or {}).get('id')) if c else None
                 if not (rid_ is not None and rid_ in self.ctx.fninfo_id):
                     return rest()
+            rc_ = self.ctx.cfg.get('record_calls', {}).get(nm)
+            if rc_ is not None:
+                # C07: call statement whose only modelled effect is to RECORD some of its arguments in configured (pseudo) scalar
+                # fields: "record_calls": {"pvSortRaws": [["sortFrom", 1], ["sortTo", 2]]} (argument indexes, 0-based)
+                args_ = s0['inner'][1:]
+                out_ = ''
+                for fld_, ix_ in rc_:
+                    if fld_ not in self.ctx.fields:
+                        raise TranslationError('record_calls: %s is not a configured field' % fld_)
+                    self.note_write(fld_)
+                    out_ += f'let {fld_} := ({self.e(args_[ix_])}) in\n'
+                return out_ + rest()
             if nm == 'fill_n' and k == 'CallExpr' and len(s0['inner']) == 4:
                 # C12: std::fill_n(field, n, v) on a configured array field
                 b = self.lv_base(s0['inner'][1])
@@ -1377,7 +1566,10 @@ class Fn:
                 if (on, 'Z') not in self.extra_params and on not in self.env:
                     self.extra_params.append((on, 'Z')); self.env[on] = ('u', 64)
         # pre-scan: does the function need the outcome monad?
-        self.nonsimple = self.prescan(body)
+        self.nonsimple = self.prescan(body) or self.name in self.ctx.cfg.get('force_outcome', [])   # C12: force_outcome
+        self.fails_mode = 'fails' in self.functors.values()   # C04
+        if self.fails_mode:
+            self.nonsimple = True
         wf_guess = None
         def ret(v):
             if not self.nonsimple:
@@ -1393,7 +1585,17 @@ class Fn:
                 jc['ret'] = lambda v: f'RETURN[{self.tup([v] + self.outp)}]'
             else:
                 jc['ret'] = lambda v: f'RETURN[{self.tup(self.outp)}]'
-        txt = self.stmts([body], lambda: jc['ret']('tt'), jc)
+        txt = self.stmts([body], lambda: jc['ret']('true' if self.fails_mode else 'tt'), jc)   # C04: completed flag
+        if self.ctx.cfg.get('ctor_inits'):
+            # C14: "ctor_inits": true -- member initialisers of a constructor (`: mData(nullptr)`) for configured scalar fields are
+            # executed before the body (in declaration order as clang lists them); other initialisers are an error
+            inits_ = [x for x in self.d.get('inner', []) if x.get('kind') == 'CXXCtorInitializer']
+            for ini_ in reversed(inits_):
+                fld_ = (ini_.get('anyInit') or {}).get('name')
+                if fld_ not in self.ctx.fields or self.ctx.fields[fld_] not in ('scalar', 'bool'):
+                    raise TranslationError('constructor initialiser of %s which is not a configured scalar field' % fld_)
+                self.note_write(fld_)
+                txt = f'let {fld_} := {self.e(ini_["inner"][0])} in\n' + txt
         wf = self.out_fields()
         def fix_ret(m):
             v = m.group(1)
@@ -1481,8 +1683,25 @@ def find_spec(objs, cfg):
                 if m.get('kind') == 'ClassTemplateSpecializationDecl' and m.get('name') == cfg['class'] and \
                         any(x.get('kind') in ('CXXMethodDecl', 'FunctionTemplateDecl') for x in m.get('inner', [])):
                     specs.append(m)
+    if cfg.get('nested_in'):   # C14: a nested class of an INSTANTIATED class template (MemPool<...>::Data): search inside its specializations
+        specs = []
+        def walk_(o, inside):
+            if not isinstance(o, dict): return
+            here = inside or (o.get('kind') == 'ClassTemplateSpecializationDecl' and o.get('name') == cfg['nested_in'])
+            if inside and o.get('kind') == 'CXXRecordDecl' and o.get('name') == cfg['class'] and \
+                    any(m.get('kind') in ('CXXMethodDecl', 'FunctionTemplateDecl') for m in o.get('inner', [])):
+                specs.append(o)
+            for c in o.get('inner', []) or []:
+                walk_(c, here)
+        for o in objs: walk_(o, False)
+        if not specs:
+            raise TranslationError('no %s nested in a specialization of %s' % (cfg['class'], cfg['nested_in']))
     if not specs:
         raise TranslationError('no specialization of %s in the AST dump' % cfg['class'])
+    if cfg.get('spec_with_method'):   # C14: pick the specialization that defines a given member function (inline vs pointer SetCrew)
+        specs = [sp for sp in specs if method_decls(sp, cfg['spec_with_method'])]
+        if not specs:
+            raise TranslationError('no specialization of %s defines %s' % (cfg['class'], cfg['spec_with_method']))
     return specs[cfg.get('spec_index', 0)]
 
 def method_decls(spec, name):
